@@ -122,7 +122,9 @@ def build_exhaustive(sc, sh, pid, l, sig, part=None):
             v = val()
             fl = fixed_list(pat)
             fixed_i, hidden_i = sorted(fl + [(i, v)]), sorted(fl + [(i, None)])
-            for frm, to, tag in ((fixed_i, hidden_i, 'hide'), (hidden_i, fixed_i, 'unhide')):
+            # ... and adjustments that only change the slot's value to a NEAR MISS of the old one (same low or high words, one bit)
+            near_i = sorted(fl + [(i, wkd.near(v, rng))])
+            for frm, to, tag in ((fixed_i, hidden_i, 'hide'), (hidden_i, fixed_i, 'unhide'), (fixed_i, near_i, 'revalue-near')):
                 saved = sc.nkey
                 sc.nkey = 200 + (saved * 7 + len(sc.lines)) % 48
                 k1 = sc.newkey()
@@ -195,11 +197,18 @@ def build_random(sc, sh, pid, l, sig, nhist, depth):
                 # adjust: qualify the current key non-delegably to `frm`, then adjust that key to `to`
                 frm = random_entries(pat, rng, l, False)
                 to = random_entries(pat, rng, l, False)
+                if rng.random() < 0.35:
+                    # same slots in the same positions, only ids (and possibly the list-level flag) differ: "nothing to rebuild" fast paths
+                    to = [(i, (v if (v is None or isinstance(pat[i], tuple) or rng.random() < 0.3) else rng.choice(VALUES + [rng.getrandbits(256)]))) for i, v in frm]
+                oa_to = rng.random() < 0.3
+                fv = {i: v for i, v in frm if v is not None}
+                to = [(i, (wkd.near(fv[i], rng) if (v is not None and i in fv and not isinstance(pat[i], tuple) and rng.random() < 0.5) else v)) for i, v in to]
                 k1, pat1 = sc.keyop('ndqualify', pid, l, frm, False, parent=kid, parent_pattern=pat)
                 sc.exp[-1][1]['ident'] = ident + ' -> ndqualify(from)'
-                pat2 = wkd.qualify_pattern(pat, to, False)
-                sc.add('adjust %d %d %s %s' % ((k1, kid) + wkd.alist_pair(frm, to, rng)), 'keyop', op='adjust', pattern=pat2, alloc=None, entries=to, omit_all=False,
-                       ident=ident + ' -> adjust(%s => %s)' % (transition_sig(pat, frm, False, l), transition_sig(pat, to, False, l)))
+                pat2 = wkd.qualify_pattern(pat, to, oa_to)
+                af, at = wkd.alist_pair(frm, to, rng, oa_to)
+                sc.add('adjust %d %d %s %s%s' % (k1, kid, af, '=' if rng.random() < 0.5 else '', at), 'keyop', op='adjust', pattern=pat2, alloc=None, entries=to, omit_all=oa_to,
+                       ident=ident + ' -> adjust(%s => %s)' % (transition_sig(pat, frm, False, l), transition_sig(pat, to, oa_to, l)))
                 k2 = k1
                 ident += ' -> adjust'
                 delegable = False
@@ -235,6 +244,7 @@ def worker(sh):
         nh = sh.pick(6, 120)
         build_random(sc, sh, 0, l, sig, nh if l <= 20 else max(2, nh * 12 // l), 5 if l <= 20 else 3)
     outs = session.run_all(sh, sh.payload['cfgs'], sc.lines)
+    sh.count('scheme_ops_with_crafted_random_streams', getattr(sc, 'nstream', 0))
     for line, (kind, kw), out in zip(sc.lines, sc.exp, outs):
         if out is None:
             continue
